@@ -41,6 +41,8 @@ mod c06_support;
 #[cfg(kani)]
 mod c06_gen;
 #[cfg(kani)]
+mod c06_rules;
+#[cfg(kani)]
 mod c09_numeric;
 #[cfg(kani)]
 mod c17_paths;
